@@ -1051,8 +1051,8 @@ func TestProp(t *testing.T) {
 	rots := r.Pick(2, 7)
 	run(fmt.Sprintf("E2 arity matrix: 0-3 fixed parameters (%d type rotations) x 12 tails x 12 result shapes x 0..N+1 well-typed arguments x block x wrapped/unwrapped", rots), arityMatrix(rots))
 
-	p := newProduct(r.Pick(1, 2), r.Pick(2, 3))
-	r.Subspace(fmt.Sprintf("E3 product: %d signatures (<= %d fixed parameters x 12 tails) x %d calls (<= %d arguments of 18 kinds) x block; wrapped except every third", len(p.sigs), r.Pick(1, 2), p.calls, p.maxN), p.size(), true)
+	p := newProduct(2, r.Pick(2, 3))
+	r.Subspace(fmt.Sprintf("E3 product: %d signatures (<= %d fixed parameters x 12 tails) x %d calls (<= %d arguments of 18 kinds) x block; wrapped except every third", len(p.sigs), 2, p.calls, p.maxN), p.size(), true)
 	r.Parallel(p.size(), 0, func(i int64) { r.Check(checkCase(r, p.at(i))) })
 
 	fit := map[string][]string{}
